@@ -79,6 +79,9 @@ def run(prop, tier, seed):
     v.cov["states"], v.cov["transitions"], v.cov["mc_depth"] = mc["distinct"], mc["states"], mc["depth"]
     log("MC Keeper: %d distinct states, %d transitions, depth %d, %.1fs" % (mc["distinct"], mc["states"], mc["depth"], mc["wall"]))
     if prop == "C13":
+        ml = vlib.tlc_mc(d, "KeeperMC.tla", "KeeperLive.cfg", timeout=900)
+        vlib.require_mc_ok(ml, "KeeperMC liveness (weakly fair plotter: popped requests are resolved, plotting ends, the plotter returns to idle)")
+        v.cov["liveness_states"] = ml["distinct"]
         mi = vlib.tlc_mc(d, "KeeperImplMC.tla", "KeeperImplMC.cfg", timeout=1200)
         vlib.require_mc_ok(mi, "KeeperImplMC (no wedge other than the known one)")
         mw = vlib.tlc_mc(d, "KeeperImplMC.tla", "KeeperImplWedge.cfg", timeout=1200)
